@@ -506,6 +506,51 @@ def campaign(ctx, njobs, hostile=True, rng=None):
             pr.encline = enc_lines[i]
             pr.packet = p.hex()
             probs.append(pr)
+    # file stream: the wrapper model Sf.Alac with the Lean codec core plugged in (`sfmodel alac script`, core=1): the WHOLE closed file
+    # byte for byte, the frame count at re-open and the sequential read, no reference run in between
+    fscripts = []
+    for j in jobs:
+        if j.name in views and j.n * j.ch <= 12000:
+            fv = views[j.name]
+            L = ["codec alac bits=%d ch=%d sr=44100 core=1" % (j.bits, j.ch), "w s32 f %d %s" % (j.n, K.hex_items(j.vals, 8)), "close",
+                 "load len=%d pakt=%s data=%s" % (len(fv.fb), fv.pakt.hex(), fv.data.hex()), "r s32 f %d" % (j.n + 16)]
+            fscripts.append((j.name, "\n".join(L) + "\n"))
+    if fscripts:
+        chunks = [c for c in (fscripts[i::3] for i in range(3)) if c]
+
+        def fone(chunk):
+            out = ctx.run_model(["alac", "script"], "".join("== %s\n%s" % (n, t) for (n, t) in chunk), timeout=3600)
+            res, cur = {}, None
+            for line in out.split("\n"):
+                if line.startswith("== "):
+                    cur = line[3:]
+                    res[cur] = []
+                elif cur is not None and line:
+                    res[cur].append(line)
+            return res
+        fres = {}
+        with concurrent.futures.ThreadPoolExecutor(max_workers=len(chunks)) as ex:
+            for r in ex.map(fone, chunks):
+                fres.update(r)
+        for (name, _) in fscripts:
+            j = next(x for x in jobs if x.name == name)
+            il, ml, fv = impl[name], fres.get(name, []), views[name]
+            stats["file_sessions"] += 1
+            stats["file_bytes_compared"] += len(fv.fb)
+            mfile = next((l[5:].split(" ")[0] for l in ml if l.startswith("file=")), "")
+            if mfile != fv.hex:
+                d = first_diff(mfile, fv.hex, 2)
+                probs.append(Problem(j, "corr", "file", "the closed file of the wrapper model with the Lean codec core differs from the implementation's from byte %d (lengths %d / %d)"
+                                     % (d, len(mfile) // 2, len(fv.fb)), hs[name], fv.hex[2 * d:2 * d + 40], mfile[2 * d:2 * d + 40]))
+                continue
+            mfr = next((A.kv(l).get("frames") for l in ml if l.startswith("frames=")), None)
+            if mfr != A.kv(il[5]).get("frames"):
+                probs.append(Problem(j, "corr", "file", "frames at re-open: implementation %s, wrapper model with the Lean codec core %s" % (A.kv(il[5]).get("frames"), mfr), hs[name], il[5], str(mfr)))
+                continue
+            mr, ir = A.kv(ml[-1]) if ml else {}, A.kv(il[6])
+            n = max(int(ir.get("ret", "0")), 0) * j.ch * 8
+            if mr.get("ret") != ir.get("ret") or mr.get("data", "")[:n] != ir.get("data", "")[:n]:
+                probs.append(Problem(j, "corr", "file", "sequential read through the wrapper model with the Lean codec core: ret %s vs implementation %s (or the items differ)" % (mr.get("ret"), ir.get("ret")), hs[name]))
     for h in hjobs:
         il = himpl.get(h.name, [])
         stats["hostile_files"] += 1
@@ -583,7 +628,7 @@ def run(ctx, prop, njobs):
         ctx.violation("%s-alaccore-correspondence-%s" % (prop.lower(), p.cat),
                       "# correspondence stream 'ALAC codec core (Sf.AlacCore) vs implementation' [%s] no longer agrees: %d differences (dec %d, enc %d, hostile %d)\n"
                       "# first: %s: %s\n# implementation: %s\n# model: %s\n%s# the %s predicate on the implementation's transcripts found no failing input\n--- script\n%s"
-                      % (p.cat, len(corr), sum(q.cat == "dec" for q in corr), sum(q.cat == "enc" for q in corr), sum(q.cat == "hostile" for q in corr),
+                      % (p.cat, len(corr), sum(q.cat == "dec" for q in corr), sum(q.cat in ("enc", "encx", "file") for q in corr), sum(q.cat == "hostile" for q in corr),
                          p.job.name, p.text[:500], (p.impl or "")[:200], (p.model or "")[:200], "".join("# %s\n" % n for n in notes), prop, p.script or ""), no_input=True)
         found = True
     note = {k: v for k, v in sorted(stats.items())}
